@@ -9,6 +9,8 @@ ROOT = os.path.dirname(os.path.dirname(os.path.abspath(__file__)))
 args = sys.argv[1:]
 repo = "/repo"
 tier = "quick"
+workers = None
+binname = os.environ.get("GOSYMEX_BIN", "gosymex")
 ids = []
 while args:
     a = args.pop(0)
@@ -16,6 +18,8 @@ while args:
         repo = args.pop(0)
     elif a == "--tier":
         tier = args.pop(0)
+    elif a == "--workers":
+        workers = args.pop(0)
     else:
         ids.append(a)
 seeded = os.path.join(ROOT, "seeded")
@@ -33,7 +37,10 @@ for mid in ids:
         print(mid, "PATCH-DOES-NOT-APPLY"); summary.append((mid, "patch does not apply")); continue
     t0 = time.time()
     try:
-        p = subprocess.run([os.path.join(ROOT, "bin", "gosymex"), "check", "--property", prop, "--tier", tier], cwd=ROOT, env=env,
+        cmd = [os.path.join(ROOT, "bin", binname), "check", "--property", prop, "--tier", tier]
+        if workers:
+            cmd += ["--workers", workers]
+        p = subprocess.run(cmd, cwd=ROOT, env=env,
                            stdout=subprocess.PIPE, stderr=subprocess.STDOUT, text=True, timeout=3600)
         out, rc = p.stdout, p.returncode
     except subprocess.TimeoutExpired as e:
